@@ -206,6 +206,9 @@ type Cluster struct {
 	realStart       time.Time
 	hostileSeen     bool
 	ffAccepted      *ffTriple
+	lastForged      *ffTriple
+	lastTampered    *ffTriple
+	lastTamperedOp  string
 	syn             *synthState
 	synTxn          int
 	refDag          *refDag
